@@ -20,6 +20,9 @@ fi
 case $ID in
   C06|C07|C08|C14) PKG=lane ;;
   C19) PKG=c19 ;;
+  C16) PKG=c16 ;;
+  C17) PKG=c17 ;;
+  C15) PKG=c15 ;;
   C03) PKG=c03 ;;
   C13) PKG=c13 ;;
   C01) PKG=c01 ;;
